@@ -649,57 +649,16 @@ def sphere_container(ctx):
 
 
 
-_NO_IDENTITY = {"min", "max", "argmin", "argmax", "ptp", "amin", "amax", "nanmin", "nanmax", "nanargmin", "nanargmax"}
-
-
 def total_on_empty(ctx, R="R-C11-readers"):
     """An array with no elements (a zero-length recording, shape (0,) or (0, C)) is an array like any other: every container stores
     it and it must come back unchanged.  Reductions without an identity (min, max, argmin, argmax, ptp) raise ValueError on it, so
     a reader - or read_signal itself - that computes one (for a log line, a sanity check) fails on data it could decode, and
     wds_read_signal turns that failure into None.  Effect rule over read_signal and the functions of its module it calls."""
-    prog = ctx.prog
-    rs = prog.func("util.read_signal")
-    reach, work = [], [rs]
-    while work:
-        g = work.pop()
-        if g in reach:
-            continue
-        reach.append(g)
-        for c in astq.func_calls(g):
-            t = prog.resolve(g.module, c.func, g)
-            if t is not None and hasattr(t, "body_nodes") and hasattr(t, "params") and t.module is rs.module and t not in reach:
-                work.append(t)
-    what = "no reduction without an identity is applied to the data read (an empty signal is read back like any other)"
-    n = 0
-    for g in reach:
-        pm = astq.parents(g)
-        for c in astq.func_calls(g):
-            name = None
-            if isinstance(c.func, ast.Attribute) and c.func.attr in _NO_IDENTITY:
-                q = prog.qualify(g.module, c.func, g)
-                if q is None and not c.args:
-                    name = "." + c.func.attr + "()"          # method of a local value
-                elif q is not None and q.startswith("numpy.") and c.args:
-                    name = q
-            elif isinstance(c.func, ast.Name) and c.func.id in ("min", "max") and len(c.args) == 1 and astq.kw(c, "default") is None \
-                    and prog.resolve(g.module, c.func, g) is None:
-                name = c.func.id + "(<one iterable>)"
-            if name is None:
-                continue
-            if astq.kw(c, "initial") is not None:
-                continue
-            anc = list(astq.ancestors(pm, c))
-            caught = any(isinstance(a, ast.Try) and any(c in list(ast.walk(st)) for st in a.body) and any(
-                h.type is None or any(t in astq.text(h.type) for t in ("ValueError", "Exception")) for h in a.handlers) for a in anc)
-            sized = any(isinstance(a, (ast.If, ast.IfExp)) and any(
-                (isinstance(y, ast.Attribute) and y.attr in ("size", "shape")) or (isinstance(y, ast.Call) and astq.is_name(y.func, "len")) for y in ast.walk(a.test))
-                for a in anc)
-            if caught or sized:
-                continue
-            n += 1
-            ctx.bad(R, g, c, "`%s` has no value for an array without elements and raises ValueError there: a stored zero-length signal can no longer be read "
-                    "(the arguments of a logging call are evaluated whatever the level)" % astq.text(c)[:60], what, robust=True)
-    ctx.ok(R, rs.loc(), what, "%d function(s) inspected" % len(reach)) if not n else None
+    from . import partial
+    partial.no_identityless_reductions(
+        ctx, R, [ctx.prog.func("util.read_signal")],
+        "no reduction without an identity is applied to the data read (an empty signal is read back like any other)",
+        "a stored zero-length signal can no longer be read (the arguments of a logging call are evaluated whatever the level)")
 
 
 def names_exist(ctx, R="R-C11-dispatch-tables"):
